@@ -433,7 +433,7 @@ def run_cases(ctx, cases, what):
 #   ROOT_RESPELLED_EMPTYREL: the folder / new folder is the root written with two or more separators ("//", "/\\", "\\\\") and the
 #   relative part has no names: normalize_path_separators("//") == "", so is_subpath("//", "/", strict=True) == "/" (not
 #   False) and replace_path("/a", "/a", "//") == "" (not "/").
-HELD = ("ROOT_RESPELLED_EMPTYREL",)
+HELD = ()          # ROOT_RESPELLED_EMPTYREL was held until the defect behind it was repaired (repo commit 007fea6)
 
 
 def held_strata():
@@ -684,7 +684,7 @@ def run(ctx):
 def list_held(ctx):
     for tag, ent in sorted(ctx.extra.get("held_strata", {}).items()):
         for ex in ent["examples"]:
-            print("HELD-STRATUM: property=C13 stratum=%s clause=%s (%d law failures in this stratum this run: %s) e.g. %s"
+            print("HELD-STRATUM: property=C13 stratum=%s clause=%s (%d witnesses kept in this stratum this run: %s) e.g. %s"
                   % (tag, ex["clause"], ent["witnesses"], ent["clauses"],
                      {k: ex["case"][k] for k in ("kind", "convention", "p", "q", "r")}))
 
